@@ -219,7 +219,7 @@ def execute_common(plan: dict, judge: str) -> dict:
                     faults.append([{"fault": "state", "kind": kind, "path": rng.choice(ref_names)}])
                 elif "benign" in mix and r < 0.55:
                     faults.append([{"fault": "benign", "bufsize": rng.choice([1, 7, 64]),
-                                    "max_io": rng.choice([1, 3, 50])}])
+                                    "max_io": rng.choice([3, 50, 1000])}])
                 elif r < 0.8 or len(single) < 2:
                     faults.append(single[rng.randrange(len(single))])
                 else:
@@ -273,7 +273,7 @@ def execute_common(plan: dict, judge: str) -> dict:
                                  + (":partial" if flt.get("k") else ""))
             sim = kernel.Sim(sb, seed_text="fault", sched_roles=(), fault_roles=("out",),
                              faults=sim_faults, schedule=[], bufsize=k_bufsize, max_io=k_max_io,
-                             shuffle_listing=False)
+                             shuffle_listing=False, step_cap=600000)
             box: Dict[str, repo.RunResult] = {}
 
             def fn() -> None:
@@ -281,9 +281,14 @@ def execute_common(plan: dict, judge: str) -> dict:
 
             actor = sim.spawn("gen", fn)
             sim.run()
+            if sim.capped:
+                stats["runs_cut_at_step_cap"] = stats.get("runs_cut_at_step_cap", 0) + 1
+                continue
             res = box.get("res") or repo.RunResult(None, "", "", actor.exc)
             if actor.exc is not None and res.exc is None:
                 res.exc = actor.exc
+            if res.rc is None and res.exc is None:
+                raise kernel.HarnessError("actor ended without result and without exception")
             stats["faulted_runs"] = stats.get("faulted_runs", 0) + 1
             stats["seam_steps"] = stats.get("seam_steps", 0) + sim.seq
             fired = len(sim.faults_fired)
